@@ -66,13 +66,20 @@ inline void parse_scripts(const std::vector<std::string>& parts, size_t from) {
 inline void begin_op(unsigned long long val) { Ctx& c = C(); c.val = val; c.ordinal = 0; c.in_op = true; }
 inline void end_op() { Ctx& c = C(); c.in_op = false; c.scripts.clear(); }
 
-inline void run_case(const std::string& line) {
+inline void reset_case() {
     Ctx& c = C();
-    c.out.clear(); c.cur_obj = 0; c.frozen = 0; c.fired = 0; c.scripts.clear();
+    c.cur_obj = 0; c.frozen = 0; c.fired = 0; c.scripts.clear();
     objs().v.clear();
     objs().v.emplace_back(new gen::Root());
     gen::setup_queues(*objs().v[0]);
     objs().reg();
+}
+
+// A line is a sequence of operations appended to the current case; the operation "R" starts a new case
+// (fresh machine objects, all harness state reset).
+inline void run_case(const std::string& line) {
+    Ctx& c = C();
+    c.out.clear();
     std::istringstream is(line);
     std::string op;
     while (is >> op) {
@@ -80,7 +87,9 @@ inline void run_case(const std::string& line) {
         auto f = split(sc[0], ':');
         const std::string& k = f[0];
         try {
-            if (k == "S") {          // S[:val]
+            if (k == "R") { reset_case(); tok("[R]"); }
+            else if (objs().v.empty()) { tok("?noreset"); break; }
+            else if (k == "S") {          // S[:val]
                 begin_op(f.size() > 1 ? strtoull(f[1].c_str(), 0, 16) : 0); parse_scripts(sc, 1);
                 tok("[S"); cur().start(); tok("]"); end_op(); emit_ids();
             } else if (k == "T") {
@@ -154,7 +163,6 @@ inline void run_case(const std::string& line) {
         }
     }
     tok("fired=" + std::to_string(c.fired));
-    objs().v.clear(); C().objs.clear();
 }
 
 inline int main_loop(int argc, char** argv) {
